@@ -43,6 +43,7 @@ use super::error::verify_range;
 use super::error::verify_true;
 use super::error::EncodeError;
 use super::error::Verified;
+use super::error::Verify;
 use super::lpc;
 #[cfg(feature = "par")]
 use super::par;
@@ -617,12 +618,13 @@ pub fn encode_fixed_size_frame(
         framebuf.filled_size(),
         1..=(crate::constant::MAX_BLOCK_SIZE)
     )?;
-    framebuf.verify_samples(stream_info.bits_per_sample())?;
     // NOTE: From expected use cases, wrapping `stream_info` is not practical
-    // since it is mutable everywhere. On the other hand, verifying it here is
-    // a bit redundant. Because broken `stream_info` actually harms nothing,
-    // as long as it is consistent with `framebuf` (that is checked in the
-    // previous line), we just leave as it is here.
+    // since it is mutable everywhere, so it is verified here: a `StreamInfo`
+    // that did not come from `StreamInfo::new` (e.g. a deserialized one) can
+    // hold a channel count or a sample size outside the supported domain, with
+    // which the range check below (and the encoder) cannot work.
+    stream_info.verify()?;
+    framebuf.verify_samples(stream_info.bits_per_sample())?;
 
     // A bit awkward, but this function is implemented by overwriting relevant
     // fields of `Frame` generated by `encode_frame`.
